@@ -119,6 +119,7 @@ fn dispatch(st: &mut State, line: &str) -> String {
         "merge" => misc::cmd_merge(rest),
         "grease" => misc::cmd_grease(rest),
         "serve" => server::cmd_serve(st, rest),
+        "respond" => server::cmd_respond(rest),
         _ => format!("UNKNOWN-CMD {}", cmd),
     }
 }
